@@ -39,16 +39,18 @@ def _inert_kwargs(is_async: bool) -> Dict[str, Any]:
 
 
 def get_world(is_async: bool, max_batch: Optional[int], fresh: bool = False, inert: bool = False, debuglog: bool = False,
-              **kw: Any) -> world.World:
-    key = (is_async, max_batch, inert, debuglog, tuple(sorted(kw.items())))
+              warnerr: bool = False, **kw: Any) -> world.World:
+    key = (is_async, max_batch, inert, debuglog, warnerr, tuple(sorted(kw.items())))
     if fresh:
         w = world.World(is_async, max_batch, **kw, **(_inert_kwargs(is_async) if inert else {}))
         w.debuglog = debuglog
+        w.warnerr = warnerr
         return w
     w = _WORLDS.get(key)
     if w is None:
         w = _WORLDS[key] = world.World(is_async, max_batch, **kw, **(_inert_kwargs(is_async) if inert else {}))
         w.debuglog = debuglog
+        w.warnerr = warnerr
     return w
 
 
@@ -74,6 +76,20 @@ class _DebugLogging:
         return False
 
 
+class _WarningsAreErrors:
+    """the process runs with warnings escalated to exceptions (`-W error`, pytest's `filterwarnings = error`): whatever
+    notice the code under test issues while handling a request is raised at that point"""
+
+    def __enter__(self):
+        import warnings
+        self.cm = warnings.catch_warnings()
+        self.cm.__enter__()
+        warnings.simplefilter('error')
+
+    def __exit__(self, *exc):
+        return self.cm.__exit__(*exc)
+
+
 def world_for(flavour: str, max_batch: Optional[int]) -> world.World:
     """flavour: sync | async | async-plain (plain functions on the async dispatcher) | sync-inert | async-inert |
     sync-debuglog | async-debuglog (the 'pjrpc' loggers enabled for DEBUG)"""
@@ -82,10 +98,17 @@ def world_for(flavour: str, max_batch: Optional[int]) -> world.World:
         return get_world(True, max_batch, all_coroutines=False)
     if flavour == 'async-sequential':
         return get_world(True, max_batch, concurrent_batch=False)
+    if flavour.endswith('-warnerr'):
+        w = get_world(is_async, max_batch, warnerr=True)
+        return w
     return get_world(is_async, max_batch, inert=flavour.endswith('-inert'), debuglog=flavour.endswith('-debuglog'))
 
 
 EXTRA_FLAVOURS = ('async-plain', 'sync-inert', 'async-inert', 'sync-debuglog', 'async-debuglog', 'async-sequential')
+# judged for totality / well-formedness only (C01): with every warning escalated, third-party deprecation notices (jsonschema's
+# own internals, pydantic's 'model_fields on the instance') turn validated calls into -32603 on the unchanged tree - an answer,
+# but not the one the reference model of C02 / C03 expects, and not pjrpc's doing
+TOTALITY_FLAVOURS = EXTRA_FLAVOURS + ('sync-warnerr', 'async-warnerr')
 
 
 class TextInfo:
@@ -150,6 +173,9 @@ def observe(w: world.World, text: str, context: Any = None) -> Obs:
     o = Obs()
     if getattr(w, 'debuglog', False):
         with _DebugLogging():
+            o.status, val = w.dispatch(text, context)
+    elif getattr(w, 'warnerr', False):
+        with _WarningsAreErrors():
             o.status, val = w.dispatch(text, context)
     else:
         o.status, val = w.dispatch(text, context)
